@@ -67,6 +67,21 @@ def judgeKept (g : BGeom) (res : Tok) : Option String :=
     | _, _ => some "bad-hex"
   | _ => some ("encoder-" ++ " ".intercalate res)
 
+/-- the error report `<kind> <Type.String()> x<hex of Error()> <len of returned bytes>` against the model:
+an `*UnsupportedGeometryError` naming the dynamic type, message per wkt.go, no bytes returned -/
+def errInfoDiff (typeName : String) (einfo : Tok) : Option String :=
+  match einfo with
+  | [kind, ty, msg, nbuf] =>
+    if kind != "unsupported" then some s!"error-is-not-UnsupportedGeometryError:{kind}"
+    else if ty != typeName then some s!"error-names-type {ty} want {typeName}"
+    else if nbuf != "0" then some s!"bytes-returned-together-with-the-error:{nbuf}"
+    else if typeName == "nil" then none
+    else match hexToChars ((msg.drop 1).toString) with
+      | some t => if String.ofList t == errorText typeName then none
+                  else some s!"error-text {String.ofList t} want {errorText typeName}"
+      | none => some "bad-hex-in-error-text"
+  | _ => some ("error-report-" ++ " ".intercalate einfo)
+
 def judgeLine (line : String) : String :=
   let (lhs, rhs) := splitArrow (tokens line)
   match lhs with
@@ -83,9 +98,13 @@ def judgeLine (line : String) : String :=
       let cls := "enc-" ++ geomClass g ++ (if !guard then "-emptymember" else "") ++ (if !fin then "-nonfinite" else "")
       let m := encode fmt g
       match res with
-      | ["err"] =>
+      | "err" :: einfo =>
         if supported g then s!"SPEC {cls} encoder-rejected-supported-type"
-        else if m.isOk then s!"DIFF {cls} model-encodes-impl-errs" else s!"OK {cls}-unsupported"
+        else if m.isOk then s!"DIFF {cls} model-encodes-impl-errs"
+        else match errInfoDiff (goTypeName g) einfo with
+          | some why => s!"DIFF {cls} {why}"
+          | none => s!"OK {cls}-unsupported"
+      | "inputmodified" :: _ => s!"DIFF {cls} encode-modified-its-argument"
       | ["ok", h] =>
         match hexToChars ((h.drop 1).toString) with
         | none => "BAD hex"
@@ -113,6 +132,30 @@ def judgeLine (line : String) : String :=
                 if mt == txt then s!"OK {cls}"
                 else s!"DIFF {cls} model-text-differs want={String.ofList mt} got={String.ofList txt}"
               | .error _ => s!"DIFF {cls} model-errs-impl-encodes"
+      | _ => s!"SPEC {cls} encoder-{" ".intercalate res}"
+  | "encp" :: gt =>
+    -- a pointer to a geometry value (`*geom.Point`, …): a type `Encode` does not list.  The statement
+    -- demands "rejected with an error rather than mis-encoded": an error is right (compared with the
+    -- model: `*T` named), a text must at least be the pointee's (SPEC otherwise) and differs from the model.
+    match Proto.pGeom 64 gt with
+    | none => "BAD parse"
+    | some (g, _) =>
+      let res := rhs.takeWhile (· ≠ "|")
+      let cls := "encptr-" ++ geomClass g
+      match res with
+      | "err" :: einfo =>
+        match errInfoDiff ("*" ++ goTypeName g) einfo with
+        | some why => s!"DIFF {cls} {why}"
+        | none => s!"OK {cls}-unsupported"
+      | ["ok", h] =>
+        match hexToChars ((h.drop 1).toString) with
+        | none => "BAD hex"
+        | some txt =>
+          match parse Dec.toBits txt with
+          | .ok g' => if Geom.beq g' g then s!"DIFF {cls} model-errs-impl-encodes-the-pointee"
+                      else s!"SPEC {cls} unlisted-type-mis-encoded-as {String.ofList txt}"
+          | .error _ => s!"SPEC {cls} unlisted-type-mis-encoded-as {String.ofList txt}"
+      | "inputmodified" :: _ => s!"DIFF {cls} encode-modified-its-argument"
       | _ => s!"SPEC {cls} encoder-{" ".intercalate res}"
   | "batch" :: n :: gt =>
     match n.toNat? with
